@@ -72,8 +72,8 @@ class C04(Prop):
         "agent stamps every value with the serial of the request it answers. non-trivial = at least one link fault or rewrite fired "
         "while a request was outstanding; distinct = distinct abstract trace (event kinds, sessions, outcome classes, fault kinds)"
     )
-    quick_runs = 3000
-    thorough_runs = 60000
+    quick_runs = 30000
+    thorough_runs = 500000
 
     def families(self, tier):
         return [("link-v2c", 3), ("link-v1", 2), ("link-v3", 3)]
